@@ -15,27 +15,6 @@ pub open spec fn consts_match<B: BlockProvider, N: NotificationService, P: Payme
     &&& w.mpp_timeout_ns == dur_ns(params.mpp_timeout)
 }
 
-//@ fn messages::HtlcAcceptedResponse::resolve
-//@ returns r
-//@ ensures#is_resolve
-      r == (messages::HtlcAcceptedResponse::Resolve { payment_key })
-//@ end
-//@ fn messages::HtlcAcceptedResponse::temporary_node_failure
-//@ returns r
-//@ ensures#is_fail
-      r is Fail
-//@ end
-//@ fn messages::HtlcAcceptedResponse::temporary_trampoline_failure
-//@ returns r
-//@ ensures#is_fail
-      r is Fail && r->failure_message@ == seq![0x20u8, 25u8]
-//@ end
-//@ fn messages::HtlcFailReason::encode
-//@ returns r
-//@ ensures#enc
-      r@ == encode_spec(*self)
-//@ end
-
 //@ fn htlc_manager::resolve
 //@ ghostparam Tracked(w): Tracked<&mut World>
 //@ implicit [C06]
